@@ -71,9 +71,50 @@ def size_terms(record):
     return out
 
 
+class Incremental:
+    """one solver per worker: hypotheses of consecutive obligations share long prefixes (same path), so they are asserted once and kept
+    on a push/pop stack; only `unsat` answers are taken from it (everything else goes through the fresh-solver cascade)"""
+
+    def __init__(self, timeout_ms=2000):
+        self.s = z3.Solver()
+        self.s.set('timeout', int(timeout_ms))
+        self.stack = []
+
+    def unsat(self, hyps, neg_goal):
+        k = 0
+        while k < len(self.stack) and k < len(hyps) and self.stack[k] is hyps[k]:
+            k += 1
+        while len(self.stack) > k:
+            self.s.pop()
+            self.stack.pop()
+        for h in hyps[k:]:
+            self.s.push()
+            self.s.add(h)
+            self.stack.append(h)
+        self.s.push()
+        self.s.add(neg_goal)
+        try:
+            r = self.s.check()
+        finally:
+            self.s.pop()
+        return r == z3.unsat
+
+
+_INC = None
+
+
 def discharge(ob, timeout_s=10.0, use_fallbacks=True):
     """returns dict(verdict, backend, time, model)"""
+    global _INC
     t0 = time.time()
+    if ob.expect != 'sat' and os.environ.get('PYVC_NO_INCREMENTAL') is None:
+        if _INC is None:
+            _INC = Incremental()
+        try:
+            if _INC.unsat(ob.hyps, z3.Not(ob.goal)):
+                return dict(verdict='discharged', backend='z3-incremental', time=time.time() - t0, model=None)
+        except z3.Z3Exception:
+            _INC = None
     if ob.expect == 'sat':
         # cover / canary: the hypotheses must be satisfiable
         for mbqi in (True, False):
